@@ -548,8 +548,11 @@ class RandomProgram(NetExec):
                 def still(op, s=side, cid=cid):
                     # only while the handle chosen above is still the live one (an id re-created by a transfer parks it)
                     return lambda: op if self.get_handle(s, cid) is not None else None
-                end = ([still("finish %d ret" % cid)] if executing else
-                       [still("close %s %d -" % (side, cid)), still("isclosed %s %d" % (side, cid)),
+                # (half of the time the conversation is ended with an error: an error close for a conversation whose object
+                # is gone and whose callback lives on must unregister the callback and fire its endmarker all the same)
+                err = r.random() < 0.5
+                end = ([still("finish %d %s" % (cid, "raise%d" % r.randint(1, 9) if err else "ret"))] if executing else
+                       [still("close %s %d %s" % (side, cid, "e%d" % r.randint(1, 9) if err else "-")), still("isclosed %s %d" % (side, cid)),
                         still("send %s %d %d" % (side, cid, self.newval()))])
                 return (["setcb %s %d 1" % (peer, cid), lazy_drop] + [flush(side)] * 4 +
                         [still("send %s %d %d" % (side, cid, self.newval()))] + end + [flush(peer)] * 4)
@@ -560,4 +563,18 @@ class RandomProgram(NetExec):
                 # the worker's write side open until the exit ladder ends it: C11's subject)
                 return ["deliver B"]
             return ["cut " + s2]
+        if choice < 0.993 and w.get("cut", True) and self.ctl.chan:
+            # "error, then connection loss, then read" macro (C07): the body fails, its CLOSE_ERROR reaches the initiator, the
+            # connection ends before the application looked at the channel: the pending RemoteError must still be reported
+            # (once), EOFError only afterwards
+            cid2 = r.choice(sorted(self.ctl.chan))
+
+            def flushA():
+                return lambda: "deliver A" if self.pipe_into("A").frames and not self.gw["A"]._channelfactory.finished else None
+
+            def onA(op):
+                return lambda: op if self.get_handle("A", cid2) is not None else None
+            return (["finish %d raise%d" % (cid2, r.randint(1, 9))] + [flushA()] * 4 +
+                    [lambda: "cut A" if not self.ctl.chan and not getattr(self, "exec_parked", False) else None,
+                     onA("recv A %d" % cid2), onA("wait A %d" % cid2), onA("recv A %d" % cid2)])
         return ["deliver " + r.choice("AB")]
